@@ -51,7 +51,7 @@ def check(ctx):
     sums.append(json.load(open(s1)))
     s2 = os.path.join(ctx.work, "pc2.json")
     rc, out, _ = vf.run([exe_race, "pcache", "-dump", g["dump"], "-out", s2, "-seed", str(ctx.seed), "-stride", str(ctx.pick(97, 11)),
-                         "-stress", str(ctx.pick(2600, 12000)), "-api", str(ctx.pick(300, 3000))], 3000, env={"GORACE": "halt_on_error=0 exitcode=0"})
+                         "-stress", str(ctx.pick(2600, 12000)), "-api", str(ctx.pick(300, 2000))], 9000, env={"GORACE": "halt_on_error=0 exitcode=0"})
     if rc != 0:
         raise vf.Inconclusive("pcache -race run failed:\n" + out[-2000:])
     sums.append(json.load(open(s2)))
